@@ -36,7 +36,7 @@ UNPROVED = [
 MANIFEST = {
     "text": "Lean 4 theorems over a hand-written model of x/dispensation (create / run / claim handlers, ValidateBasic, key functions, "
             "ChangeRecordStatus, transaction all-or-nothing): refinement theorems per message (create_refines, run_refines, one_claim_per_type, "
-            "claim_deleted_on_pay, run_pays_from_escrow, run_leaver_paid_or_failed (nothing is silently dropped), run_wrong_runner_pays_nothing, run_at_most_count, refused_changes_nothing), key-injectivity lemmas, and two "
+            "claim_deleted_on_pay, run_pays_from_escrow, create_moves_exactly_outputs, run_leaver_paid_or_failed (nothing is silently dropped), run_wrong_runner_pays_nothing, run_at_most_count, refused_changes_nothing), key-injectivity lemmas, and two "
             "invariants proved by induction over ALL histories of messages, blocks, funding and transfers: escrow_covers (module balance >= "
             "pending + failed, per denom) and paid_at_most_once (per record key: paid + pending + failed = created). Tied to the code by "
             "regenerated facts (store prefixes, constants) and by differential execution of the real keeper (whole module store incl. raw keys and "
